@@ -35,13 +35,26 @@
 //	   22 SettingsAfterFormat  23 IntoOutfile  24 Format
 //	 list fields: the digit is the length; pointer / interface / bool fields: 0 = nil/false,
 //	 non-zero = set; From: 0 = nil, 1..8 = that many tables, 9 = non-nil with zero tables.
+//	 Third state "present but empty": the letter e in the position of a slice-typed field
+//	 (With, DistinctOn, Columns, GroupBy, Window, OrderBy, Interpolate, LimitBy, Settings) gives a
+//	 NON-NIL EMPTY slice (0 gives nil); e at ArrayJoin gives an ArrayJoinClause with a non-nil
+//	 empty Columns slice.  The Coq model cannot tell nil from empty, so such a case is
+//	 oracle-only (flag O below): only header = direct children is required of it.
 //	 Sub-nodes are identifiers named after the field (c1, c2, wh, ...), see build().  With
 //	 GroupingSets set, GroupBy element i (from 0) is: i%4==0 an identifier, 1 a tuple literal of
 //	 two identifiers, 2 a Parenthesized tuple literal of one identifier, 3 an empty tuple literal.
 //
-// stdout: one line per case:  <header count> TAB <direct children> TAB <md5 of the text>
+//	W  <w>    <sq>              the SelectQuery <sq> as SECOND member of a UNION ALL whose first member is
+//	                            `WITH fw1..fw<w> SELECT c0` (w >= 1): printed by explainSelectQueryWithInheritedWith
+//	                            (or normally when <sq> has its own WITH); reported: the subtree of the second SelectQuery
+//	V  <w>    <sq>              &ast.InsertQuery{Table: "t", With: iw1..iw<w>, Select: union of the single <sq>}:
+//	                            the other route into explainSelectQueryWithInheritedWith; reported: the SelectQuery subtree
 //
-//	(with -text: the lowercase hex of the text instead of its md5), or PANIC.
+// stdout: one line per case:  <header count> TAB <direct children> TAB <md5 of the text> TAB <flag>
+//
+//	(with -text: the lowercase hex of the text instead of its md5), or PANIC TAB <flag>.
+//	<flag> = M: model-comparable (the OCaml driver prints the same line);
+//	         O: oracle-only (some field is "present but empty"; the driver prints - - - O).
 //
 // Build: cd /verif/harness && go build -tags verif -o /verif/build/selectcount ./cmd/selectcount
 package main
@@ -78,12 +91,20 @@ func opt(name string, d int) ast.Expression {
 	return id(name)
 }
 
+// positions of the 25-digit spec that are slice-typed (or hold a slice) and accept the letter e
+var emptyable = map[int]bool{0: true, 1: true, 3: true, 5: true, 8: true, 13: true, 14: true, 15: true, 17: true, 21: true}
+
 func build(spec string) (*ast.SelectQuery, error) {
 	if len(spec) != 25 {
 		return nil, fmt.Errorf("select spec must have 25 digits: %q", spec)
 	}
 	d := make([]int, 25)
+	empty := make([]bool, 25)
 	for i := 0; i < 25; i++ {
+		if spec[i] == 'e' && emptyable[i] {
+			empty[i] = true
+			continue
+		}
 		if spec[i] < '0' || spec[i] > '9' {
 			return nil, fmt.Errorf("bad digit in %q", spec)
 		}
@@ -94,6 +115,15 @@ func build(spec string) (*ast.SelectQuery, error) {
 	q.DistinctOn = ids("d", d[1])
 	q.Top = opt("top", d[2])
 	q.Columns = ids("c", d[3])
+	if empty[0] {
+		q.With = []ast.Expression{}
+	}
+	if empty[1] {
+		q.DistinctOn = []ast.Expression{}
+	}
+	if empty[3] {
+		q.Columns = []ast.Expression{}
+	}
 	if d[4] != 0 {
 		q.From = &ast.TablesInSelectQuery{}
 		if d[4] != 9 {
@@ -105,6 +135,9 @@ func build(spec string) (*ast.SelectQuery, error) {
 	}
 	if d[5] != 0 {
 		q.ArrayJoin = &ast.ArrayJoinClause{Columns: []ast.Expression{id("aj")}}
+	}
+	if empty[5] {
+		q.ArrayJoin = &ast.ArrayJoinClause{Columns: []ast.Expression{}}
 	}
 	q.PreWhere = opt("pw", d[6])
 	q.Where = opt("wh", d[7])
@@ -125,6 +158,9 @@ func build(spec string) (*ast.SelectQuery, error) {
 		}
 		q.GroupBy = append(q.GroupBy, e)
 	}
+	if empty[8] {
+		q.GroupBy = []ast.Expression{}
+	}
 	q.Having = opt("hv", d[11])
 	q.Qualify = opt("ql", d[12])
 	for i := 1; i <= d[13]; i++ {
@@ -136,13 +172,28 @@ func build(spec string) (*ast.SelectQuery, error) {
 	for i := 1; i <= d[15]; i++ {
 		q.Interpolate = append(q.Interpolate, &ast.InterpolateElement{Column: fmt.Sprintf("i%d", i)})
 	}
+	if empty[13] {
+		q.Window = []*ast.WindowDefinition{}
+	}
+	if empty[14] {
+		q.OrderBy = []*ast.OrderByElement{}
+	}
+	if empty[15] {
+		q.Interpolate = []*ast.InterpolateElement{}
+	}
 	q.Limit = opt("lim", d[16])
 	q.LimitBy = ids("lb", d[17])
+	if empty[17] {
+		q.LimitBy = []ast.Expression{}
+	}
 	q.LimitByLimit = opt("lbl", d[18])
 	q.LimitByOffset = opt("lbo", d[19])
 	q.Offset = opt("off", d[20])
 	for i := 1; i <= d[21]; i++ {
 		q.Settings = append(q.Settings, &ast.SettingExpr{Name: fmt.Sprintf("s%d", i), Value: id("v")})
+	}
+	if empty[21] {
+		q.Settings = []*ast.SettingExpr{}
 	}
 	q.SettingsAfterFormat = d[22] != 0
 	if d[23] != 0 {
@@ -202,6 +253,21 @@ func buildCase(kind, arg, items string) (ast.Statement, error) {
 		return build(items)
 	case "U":
 		return buildUnion(arg, items)
+	case "W":
+		q, err := build(items)
+		if err != nil {
+			return nil, err
+		}
+		w := int(arg[0] - '0')
+		first := &ast.SelectQuery{With: ids("fw", w), Columns: []ast.Expression{id("c0")}}
+		return &ast.SelectWithUnionQuery{Selects: []ast.Statement{first, q}, UnionModes: []string{"UNION ALL"}}, nil
+	case "V":
+		q, err := build(items)
+		if err != nil {
+			return nil, err
+		}
+		u := &ast.SelectWithUnionQuery{Selects: []ast.Statement{q}}
+		return &ast.InsertQuery{Table: "t", With: ids("iw", int(arg[0]-'0')), Select: u}, nil
 	case "N":
 		if len(arg) != 4 {
 			return nil, fmt.Errorf("N arg must be 4 digits")
@@ -287,25 +353,43 @@ func main() {
 		}
 		text, p := explain(st)
 		if p {
-			fmt.Fprintln(out, "PANIC")
+			if strings.Contains(f[2], "e") {
+				fmt.Fprintln(out, "PANIC\tO")
+			} else {
+				fmt.Fprintln(out, "PANIC\tM")
+			}
 			continue
 		}
 		lines := strings.Split(text, "\n")
 		if n := len(lines); n > 0 && lines[n-1] == "" {
 			lines = lines[:n-1]
 		}
-		if f[0] == "N" || f[0] == "X" || f[0] == "C" {
-			// the nested SelectWithUnionQuery subtree, de-indented
+		flag := "M"
+		if strings.Contains(f[2], "e") {
+			flag = "O"
+		}
+		if f[0] == "N" || f[0] == "X" || f[0] == "C" || f[0] == "W" || f[0] == "V" {
+			// the nested subtree, de-indented: the first SelectWithUnionQuery below the root
+			// (N, X, C), the second SelectQuery (W) or the first SelectQuery (V)
+			label, nth := "SelectWithUnionQuery", 1
+			if f[0] == "W" {
+				label, nth = "SelectQuery", 2
+			} else if f[0] == "V" {
+				label, nth = "SelectQuery", 1
+			}
 			start, ind := -1, 0
 			for i := 1; i < len(lines); i++ {
 				t := strings.TrimLeft(lines[i], " ")
-				if strings.HasPrefix(t, "SelectWithUnionQuery") {
-					start, ind = i, len(lines[i])-len(t)
-					break
+				if t == label || strings.HasPrefix(t, label+" ") {
+					nth--
+					if nth == 0 {
+						start, ind = i, len(lines[i])-len(t)
+						break
+					}
 				}
 			}
 			if start < 0 {
-				fmt.Fprintln(out, "NOSUBTREE")
+				fmt.Fprintf(out, "NOSUBTREE\t%s\n", flag)
 				continue
 			}
 			end := start + 1
@@ -340,6 +424,6 @@ func main() {
 			sum := md5.Sum([]byte(text))
 			third = hex.EncodeToString(sum[:])
 		}
-		fmt.Fprintf(out, "%d\t%d\t%s\n", header, direct, third)
+		fmt.Fprintf(out, "%d\t%d\t%s\t%s\n", header, direct, third, flag)
 	}
 }
